@@ -9,12 +9,30 @@ from common import gen_data, rel
 TRUSTED_BASE = [
     "the order-selection criteria use numpy.log; the model's criterion formulas are evaluated in doubles (float mode)",
     "exact mode (no criterion): model in exact Gaussian rationals on dyadic data, rtol 1e-8; float mode otherwise, rtol 1e-7",
+    "model comparison on ill-conditioned records (conditioning < 9.1e-6, see ASSUMPTIONS): tolerance 4096*eps/conditioning instead of "
+    "1e-7 (post_burg); derived records outside the domain are not compared",
+    "class entry point: pburg(x, order, criteria, NFFT=64)() is read at .ar/.rho/.reflection, required equal to arburg at 1e-12 and fed to "
+    "the same clauses (independent direct-sum reference burg_ref, written in the oracle)",
+    "container / dtype cases (int64, int8, list, list of complex): same (a, rho, k) as for the float64 array at 1e-12; the float64 result "
+    "itself is checked against the reference by the sibling 'burg' case",
 ]
 PARTIAL = []   # stability: C13.burg_stable (closed disc for |k_i| <= 1, open disc when all |k_i| < 1)
-ASSUMPTIONS = ["non-degenerate prediction error: every stage variance rho_k >= 1e-9 * rho_0 (otherwise the case is skipped and counted)",
-               "AICc / AKICc divide by N-k-2: order N-2 with those criteria is outside the domain"]
-RULE = ("real/complex data (noise, tones in noise, integer, zero-interleaved integer, trends) of length 4..24 (orders <= 6) exact / ..200 "
-        "float x orders 1..min(N-2,30) x criteria in {None, AIC, AICc, KIC, FPE, AKICc, MDL}; non-trivial = order >= 2")
+ASSUMPTIONS = ["non-degenerate prediction error := conditioning >= 1e-9, where conditioning = min over the stages k of rho_k/rho_0 and of the "
+               "stage's mean forward+backward error energy D_k/(2 N rho_0), both from the direct-sum reference (a stage with D_k = 0 has "
+               "k = 0/0: degenerate; e.g. [0,0,z,0,0] at order 3).  Generated records outside are skipped; records derived by vcheck.vary "
+               "outside are tagged out-of-domain and not evaluated",
+               "the whole declared range is generated ('clean' data: 1-2 sinusoids + noise sigma 10^U(-4.3,-1.5) reach conditioning 2e-9). "
+               "The domain is NOT shrunk: |k|<=1, stability, step-up, rho-product, rho against the reference, nesting, stage optimality "
+               "keep their fixed tolerances; only the value agreement of k / a with the direct-sum formulations (burg_ref, _arburg2, and "
+               "the model in the correspondence run) has the tolerance max(base, 4096*eps/conditioning) (round-off of Marple's recursively "
+               "updated denominator; observed <= 315*eps*rho_0/min rho_k on 20000 records): equal to the base tolerance whenever the "
+               "conditioning is >= 9.1e-6 (base 1e-7) / 9.1e-4 (base 1e-9, _arburg2)",
+               "AICc / AKICc divide by N-k-2: order N-2 (and above) with those criteria is outside the domain",
+               "order = N is accepted by the code but executes 0/round-off in its last stage: not generated (orders 1..N-1 are; order 0 and "
+               "N+1 are correspondence cases: ValueError in code and model)"]
+RULE = ("real/complex data (noise, tones in noise, clean tones, AR(2)/AR(4) processes, integer, zero-interleaved integer, trends) of length "
+        "4..24 (orders <= 6) exact / ..200 float x orders 1..min(N-2,30), plus orders N-2 and N-1 for N 3..14, x criteria in {None, AIC, "
+        "AICc, KIC, FPE, AKICc, MDL}; function and class entry point (array, list); non-trivial = returned model has len(a) >= 2")
 
 CRITS = ["AIC", "AICc", "KIC", "FPE", "AKICc", "MDL"]
 
@@ -51,6 +69,55 @@ def burg_ref(x, p):
     return np.array(ks), rhos, stages
 
 
+EPS = float(np.finfo(float).eps)
+_CACHE = {}
+
+
+def _lib(p):
+    """arburg on the case's data (memo of the last few cases: `nontrivial`, `tags` and the oracle all need the selected order);
+    returns ("ok", a, rho, k) or ("err", exception)"""
+    x = np.asarray(p["x"])
+    key = (x.tobytes(), str(x.dtype), p["order"], p["crit"])
+    if key not in _CACHE:
+        if len(_CACHE) > 8:
+            _CACHE.clear()
+        try:
+            a, rho, k = _sp().arburg(x, p["order"], p["crit"])
+            _CACHE[key] = ("ok", c(a), rho, c(k))
+        except Exception as e:      # noqa: BLE001 - re-raised by the oracle
+            _CACHE[key] = ("err", e)
+    return _CACHE[key]
+
+
+def _qsel(p):
+    r = _lib(p)
+    return len(r[1]) if r[0] == "ok" else -1
+
+
+def conditioning(N, kr, rhos, stages):
+    """the conditioning of a record for a Burg model: the smallest, over the stages, of rho_k / rho_0 and of the stage's mean
+    forward+backward error energy D_k / (2 N rho_0), from the direct-sum reference; 0.0 when a stage is 0/0 (both error vectors vanish)"""
+    r0 = rhos[0]
+    if not (r0 > 0) or not np.all(np.isfinite(kr)) or not np.all(np.isfinite(rhos)):
+        return 0.0
+    d = [float(np.sum(np.abs(f) ** 2) + np.sum(np.abs(b) ** 2)) / (2 * N * r0) for f, b in stages]
+    return float(min([r / r0 for r in rhos] + d))
+
+
+DOMAIN = 1e-9       # ASSUMPTIONS: non-degenerate prediction error
+
+
+def in_domain(x, order):
+    kr, rhos, stages = burg_ref(x, order)
+    return conditioning(len(x), kr, rhos, stages) >= DOMAIN
+
+
+def cond_tol(base, ratio):
+    """tolerance of the VALUE agreement between the library (Marple's recursively updated denominator) and a direct-sum formulation:
+    the recursion loses eps * D_0 / D_k relative accuracy in the denominator of stage k; `base` whenever that is smaller"""
+    return max(base, 4096 * EPS / max(ratio, DOMAIN))
+
+
 def impl_burg(p):
     a, rho, k = _sp().arburg(p["x"], p["order"], p["crit"])
     return [c(a), c([rho]), c(k)]
@@ -61,24 +128,46 @@ def model_burg(p):
     return (mode, proto.request("burg", mode, [p["order"], p["crit"] or "none"], [np.asarray(p["x"])]))
 
 
-def oracle_burg(p):
+def post_burg(p, iv, mv):
+    """model against implementation, per case:
+    * records derived by vcheck.vary (zeroed end samples of a zero-interleaved record, ...) may have a stage whose forward and backward
+      errors vanish identically: the reflection coefficient is 0/0 there, outside the property's domain; nothing is compared then;
+    * the float-mode model is the same recursion in doubles with another summation order, the exact-mode model has no round-off: on
+      records of small conditioning (low-noise sinusoids; a dominant DC / Nyquist tone added by vcheck.vary at an order close to N) the
+      two differ by the round-off of the recursive denominator.  The comparison tolerance is cond_tol(1e-7, conditioning); the kind's
+      rtol is 1e-7, so the difference is rescaled by 1e-7 / cond_tol (factor 1, i.e. nothing changes, whenever the conditioning is
+      >= 9.1e-6: every generated noise / tone / integer / zero-interleaved / trend / AR(2) record at orders <= N-2 has conditioning
+      >= 1.4e-5 on three thorough seeds; below are clean tones, a few AR(4) and order N-1 records and a few derived dc / nyq records)"""
+    if p.get("variant") and not in_domain(p["x"], p["order"]):
+        return [], []
+    if len(iv) != len(mv) or any(np.shape(i) != np.shape(m) for i, m in zip(iv, mv)):
+        return iv, mv
+    f = 1e-7 / cond_tol(1e-7, conditioning(len(p["x"]), *burg_ref(p["x"], len(iv[0]))))
+    if f >= 1:
+        return iv, mv
+    return [np.asarray(m) + (np.asarray(i) - np.asarray(m)) * f for i, m in zip(iv, mv)], mv
+
+
+def clauses(p, a, rho, k, who="arburg"):
+    """the property statement evaluated on one returned triple (a, rho, k) for data p["x"], requested order p["order"], criterion p["crit"]"""
     sp = _sp()
     x = np.asarray(p["x"])
     N = len(x)
     order = p["order"]
     out = []
     tol = 1e-7
-    a, rho, k = sp.arburg(x, order, p["crit"])
     a, k = c(a), c(k)
     q = len(a)
     if len(k) != q:
-        out.append("arburg returned %d AR coefficients and %d reflection coefficients" % (q, len(k)))
+        out.append("%s returned %d AR coefficients and %d reflection coefficients" % (who, q, len(k)))
         return out
     if q > order:
-        out.append("arburg returned order %d > requested %d" % (q, order))
+        out.append("%s returned order %d > requested %d" % (who, q, order))
     if p["crit"] is None and q != order:
-        out.append("arburg without criterion returned order %d for requested %d" % (q, order))
+        out.append("%s without criterion returned order %d for requested %d" % (who, q, order))
     kr, rhos, stages = burg_ref(x, q)
+    ratio = conditioning(N, kr, rhos, stages)
+    tolv = cond_tol(tol, ratio)         # == tol unless the conditioning is < 9.1e-6
     if np.any(np.abs(k) > 1 + 1e-12):
         out.append("reflection coefficient of modulus > 1")
     # returned AR vector is the step-up polynomial of the returned reflection coefficients
@@ -87,6 +176,13 @@ def oracle_burg(p):
         ap = c(rc2poly(k)[0])[1:]
         if rel(ap, a) > tol:
             out.append("AR vector is not the step-up polynomial of the reflection coefficients (order %d): %.2e" % (q, rel(ap, a)))
+        # independent step-up (Levinson recursion written here)
+        al = np.zeros(0, dtype=complex)
+        for kk in k:
+            al = np.concatenate((al + kk * np.conj(al[::-1]), [kk]))
+        if rel(al, a) > tol:
+            out.append("AR vector is not the step-up polynomial of the reflection coefficients (order %d, numpy step-up): %.2e" % (
+                q, rel(al, a)))
         roots = np.roots(np.concatenate(([1], a)))
         if np.max(np.abs(roots)) > 1 + 1e-9:
             out.append("Burg polynomial not stable: max|root| = %.8f" % np.max(np.abs(roots)))
@@ -95,8 +191,11 @@ def oracle_burg(p):
         out.append("variance %r != mean|x|^2*prod(1-|k_i|^2) = %r (order %d, criterion %s)" % (
             rho, r0 * np.prod(1 - np.abs(k) ** 2), q, p["crit"]))
     # result is exactly the Burg model of order q (also with a criterion), and nested in the order-p one
-    if rel(k, kr) > tol:
-        out.append("reflection coefficients differ from the order-%d Burg model (criterion %s): %.2e" % (q, p["crit"], rel(k, kr)))
+    if rel(k, kr) > tolv:
+        out.append("reflection coefficients differ from the order-%d Burg model (criterion %s): %.2e (tol %.1e)" % (
+            q, p["crit"], rel(k, kr), tolv))
+    if abs(rho - rhos[-1]) > tol * r0:
+        out.append("variance %r differs from the one of the order-%d Burg model %r" % (rho, q, rhos[-1]))
     if q >= 1:
         a2, rho2, k2 = sp.arburg(x, q)
         if rel(c(a2), a) > tol or abs(rho2 - rho) > tol * r0:
@@ -127,15 +226,96 @@ def oracle_burg(p):
         else:
             continue
         break
-    # the vectorised private variant agrees
+    # the vectorised private variant (direct sums, kept in the code base as the independent formulation) agrees in a, rho and k
     if p["crit"] is None:
+        from spectrum.burg import _arburg2
+        a4, e4, k4 = _arburg2(x, order)
+        a4, k4 = c(a4), c(k4)
+        tol4 = cond_tol(1e-9, ratio)    # == 1e-9 unless the conditioning is < 9.1e-4 (<= 1.2e-8 on the formerly generated range >= 8e-5)
+        if len(a4) != q + 1 or a4[0] != 1:
+            out.append("_arburg2: AR polynomial of length %d, leading coefficient %r (order %d)" % (len(a4), a4[:1], order))
+        elif rel(a4[1:], a) > tol4:
+            out.append("_arburg2 AR coefficients differ from %s: %.2e (tol %.1e)" % (who, rel(a4[1:], a), tol4))
+        if rel(k4, k) > tol4:
+            out.append("_arburg2 reflection coefficients differ from %s: %.2e (tol %.1e)" % (who, rel(k4, k), tol4))
+        if not abs(complex(e4) - rho) <= 1e-9 * r0:
+            out.append("_arburg2 variance %r differs from %s %r" % (e4, who, rho))
+    return out
+
+
+def oracle_burg(p):
+    if p.get("variant") and not in_domain(p["x"], p["order"]):
+        return []                   # derived record outside the domain (tagged "out-of-domain")
+    r = _lib(p)
+    if r[0] == "err":
+        raise r[1]
+    return clauses(p, r[1], r[2], r[3])
+
+
+def _as_container(x, how):
+    if how == 1:
+        return list(x)              # list of numpy scalars
+    if how == 2:
+        return x.tolist()           # list of Python floats / complex
+    return x
+
+
+def oracle_class(p):
+    """class entry point: pburg(...)() read at .ar / .rho / .reflection"""
+    sp = _sp()
+    if p.get("variant") and not in_domain(p["x"], p["order"]):
+        return []                   # derived record outside the domain (tagged "out-of-domain")
+    data = _as_container(np.asarray(p["x"]), p.get("aslist", 0))
+    P = sp.pburg(data, p["order"], criteria=p["crit"], NFFT=64)
+    P()
+    a, rho, k = sp.arburg(data, p["order"], p["crit"])
+    out = []
+    pa, pk = c(P.ar), c(P.reflection)
+    if not np.isscalar(P.rho) and np.ndim(P.rho) != 0:
+        return ["pburg.rho is not a scalar: %r" % (P.rho,)]
+    if pa.shape != c(a).shape or pk.shape != c(k).shape:
+        return ["pburg returns %d AR / %d reflection coefficients, arburg %d / %d (order %d, criterion %s)" % (
+            len(pa), len(pk), len(c(a)), len(c(k)), p["order"], p["crit"])]
+    r0 = float(np.mean(np.abs(np.asarray(p["x"])) ** 2))
+    if rel(pa, c(a)) > 1e-12 or rel(pk, c(k)) > 1e-12 or not abs(P.rho - rho) <= 1e-12 * r0:
+        out.append("pburg.ar/.rho/.reflection differ from arburg: %.2e / %.2e / %.2e (order %d, criterion %s)" % (
+            rel(pa, c(a)), abs(P.rho - rho) / r0, rel(pk, c(k)), p["order"], p["crit"]))
+    if p["crit"] is None and len(pa) != p["order"]:
+        out.append("pburg without criterion holds an order-%d model for requested order %d" % (len(pa), p["order"]))
+    return out + clauses(p, P.ar, P.rho, P.reflection, who="pburg")
+
+
+def oracle_container(p):
+    """the same integer-valued samples handed over as int64 / int8 arrays and as lists give the same model"""
+    sp = _sp()
+    x = np.asarray(p["x"])
+    a0, rho0, k0 = sp.arburg(x, p["order"], p["crit"])
+    a0, k0 = c(a0), c(k0)
+    r0 = float(np.mean(np.abs(x) ** 2))
+    forms = [("list of numpy scalars", list(x)), ("list of complex", [complex(v) for v in x])]
+    if not np.iscomplexobj(x):
+        forms += [("int64 array", x.astype(np.int64)), ("int8 array", x.astype(np.int8)), ("list of int", [int(v) for v in x]),
+                  ("list of float", [float(v) for v in x]), ("complex128 array", x.astype(complex))]
+    else:
+        forms += [("list of Python complex", x.tolist())]
+    out = []
+    for name, data in forms:
         try:
-            from spectrum.burg import _arburg2
-            a4, e4, k4 = _arburg2(x, order)
-            if rel(c(k4), k) > 1e-6:
-                out.append("_arburg2 reflection coefficients differ from arburg")
-        except Exception:
-            pass
+            a, rho, k = sp.arburg(data, p["order"], p["crit"])
+        except Exception as e:      # noqa: BLE001 - an exception on valid data is a violation
+            out.append("arburg raises %s for the samples given as %s: %s" % (type(e).__name__, name, str(e)[:100]))
+            continue
+        a, k = c(a), c(k)
+        if a.shape != a0.shape or k.shape != k0.shape:
+            out.append("arburg selects order %d for the samples given as %s, %d as float64/complex128 array" % (len(a), name, len(a0)))
+        elif rel(a, a0) > 1e-12 or rel(k, k0) > 1e-12 or not abs(rho - rho0) <= 1e-12 * r0:
+            out.append("arburg result for the samples given as %s differs from the float array result: a %.2e rho %.2e k %.2e" % (
+                name, rel(a, a0), abs(rho - rho0) / r0, rel(k, k0)))
+        if p.get("cls"):
+            P = sp.pburg(data, p["order"], criteria=p["crit"], NFFT=64)
+            P()
+            if c(P.ar).shape != a0.shape or rel(c(P.ar), a0) > 1e-12 or rel(c(P.reflection), k0) > 1e-12 or not abs(P.rho - rho0) <= 1e-12 * r0:
+                out.append("pburg result for the samples given as %s differs from arburg on the float array" % name)
     return out
 
 
@@ -144,17 +324,93 @@ def _key(p):
     return "%d|%d|%s|%s|%d" % (len(x), p["order"], p["crit"], np.iscomplexobj(x), hash(x.tobytes()) & 0xFFFFFF)
 
 
+def _key_class(p):
+    return _key(p) + "|%d" % p.get("aslist", 0)
+
+
+def _tags(p):
+    t = ["complex" if np.iscomplexobj(p["x"]) else "real", "crit:%s" % p["crit"], "data:" + p["dkind"]]
+    if p.get("variant") and not in_domain(p["x"], p["order"]):
+        return t + ["out-of-domain(derived record, not evaluated)"]
+    if p["crit"] is not None:       # where the stop rule lands
+        q = _qsel(p)
+        t.append("q:error" if q < 0 else "q:0" if q == 0 else "q:order" if q == p["order"] else "q:interior")
+    x = np.asarray(p["x"])
+    if len(x) - p["order"] <= 2:
+        t.append("order:N-%d" % (len(x) - p["order"]))
+    return t
+
+
+def _tags_burg(p):
+    return _tags(p) + ["mode:" + ("Q" if (p["crit"] is None and p.get("exact")) else "F")]
+
+
+def _tags_class(p):
+    return _tags(p) + ["class-input:" + ["array", "list", "pylist"][p.get("aslist", 0)]]
+
+
+def _nontrivial(p):
+    if p.get("variant") and not in_domain(p["x"], p["order"]):
+        return False
+    return _qsel(p) >= 2            # the returned model has at least two stages (with a criterion: the stop is at q >= 2)
+
+
+_BURG = {"impl": impl_burg, "model": model_burg, "oracle": oracle_burg, "rtol": 1e-7, "atol": 1e-300, "key": _key,
+         "nontrivial": _nontrivial, "tags": _tags_burg, "post": post_burg}
+_CLASS = {"oracle": oracle_class, "key": _key_class, "nontrivial": _nontrivial, "tags": _tags_class}
+
 KINDS = {
-    "burg": {"impl": impl_burg, "model": model_burg, "oracle": oracle_burg, "rtol": 1e-7, "atol": 1e-300, "key": _key,
-             "nontrivial": lambda p: p["order"] >= 2,
-             "tags": lambda p: ["complex" if np.iscomplexobj(p["x"]) else "real", "crit:%s" % p["crit"], "data:" + p["dkind"],
-                                "mode:" + ("Q" if (p["crit"] is None and p.get("exact")) else "F")]},
+    "burg": dict(_BURG),
+    # low-noise sinusoids (rho_k/rho_0 down to 1e-9): same implementation / model / oracle; kept apart because the derived degenerate
+    # variants of vcheck.vary (a dominant DC / Nyquist tone added to the record) would leave the declared conditioning domain
+    "burg_clean": dict(_BURG),
+    "burg_class": dict(_CLASS),
+    "burg_class_clean": dict(_CLASS),
+    # order 0 and order N+1: ValueError in the code, error kind "value" in the model
+    "burg_err": {"impl": impl_burg, "model": model_burg, "strict_errors": True, "rtol": 1e-7, "key": _key,
+                 "nontrivial": lambda p: True,
+                 "tags": lambda p: ["rejected-order:" + ("0" if p["order"] == 0 else "N+1")]},
+    "burg_container": {"oracle": oracle_container, "key": _key, "nontrivial": lambda p: p["order"] >= 2,
+                       "tags": lambda p: ["container:" + ("complex" if np.iscomplexobj(p["x"]) else "real"), "container-data:" + p["dkind"]]},
 }
+NO_DEGEN = {"burg_clean", "burg_class_clean"}
+NO_VARY = {"burg_err", "burg_container"}     # container cases need integer-valued samples (amplitude variants are not)
 
 
 def _well_conditioned(x, order):
-    _, rhos, _ = burg_ref(x, order)
-    return min(rhos) >= 1e-9 * rhos[0] and rhos[0] > 0
+    return in_domain(x, order)
+
+
+def _clean(nrng, N, cplx):
+    """1-2 sinusoids of amplitude 0.5..2 in white noise of standard deviation 10^U(-4.3,-1.5); returns (x, number of poles)"""
+    n = np.arange(N)
+    nt = int(nrng.integers(1, 3))
+    sig = 10.0 ** nrng.uniform(-4.3, -1.5)
+    x = np.zeros(N, dtype=complex if cplx else float)
+    for _ in range(nt):
+        f = nrng.uniform(0.03, 0.47)
+        A = nrng.uniform(0.5, 2.0)
+        ph = nrng.uniform(0, 2 * np.pi)
+        x = x + (A * np.exp(1j * (2 * np.pi * f * n + ph)) if cplx else A * np.cos(2 * np.pi * f * n + ph))
+    e = nrng.standard_normal(N) + (1j * nrng.standard_normal(N) if cplx else 0)
+    return x + sig * e, nt * (1 if cplx else 2)
+
+
+AR_COEF = {"ar2": [1.2, -0.7], "ar4": [2.7607, -3.8106, 2.6535, -0.9238]}
+
+
+def _ar(nrng, N, cplx, which):
+    """x[i] = sum_j c_j x[i-j] + e[i] after a 50-sample burn-in (complex: complex innovations, spectrum shifted by a random frequency)"""
+    co = AR_COEF[which]
+    M = N + 50
+    e = nrng.standard_normal(M) + (1j * nrng.standard_normal(M) if cplx else 0)
+    x = np.zeros(M, dtype=complex if cplx else float)
+    for i in range(M):
+        x[i] = e[i] + sum(co[j] * x[i - 1 - j] for j in range(len(co)) if i - 1 - j >= 0)
+    x = x[50:]
+    if cplx:
+        x = x * np.exp(2j * np.pi * nrng.uniform(-0.5, 0.5) * np.arange(N))
+    return x
 
 
 def _mk(nrng, N, cplx, kind, exact):
@@ -172,33 +428,44 @@ def _mk(nrng, N, cplx, kind, exact):
 
 KINDS["single"] = single.kind("C13")
 
+
+def _pair(kind, p, j, every=1):
+    """the function case and, for every `every`-th one, the class entry point on the same data (array / list / list of Python numbers)"""
+    yield (kind, p)
+    if j % every == 0:
+        yield ("burg_class" + kind[4:], dict(p, aslist=(j // every) % 3))
+
+
 def gen(rng, nrng, tier):
+    quick = tier == "quick"
     yield from single.gen("C13", nrng, tier)
-    for N in ((256, 300) if tier == "quick" else (256, 257, 300, 513, 1000)):   # long records
+    for N in ((256, 300) if quick else (256, 257, 300, 513, 1000)):   # long records
         for cplx in (False, True):
             x = _mk(nrng, N, cplx, "tone", False)
             order = int(nrng.integers(2, 13))
             if _well_conditioned(x, order):
-                yield ("burg", {"x": x, "order": order, "crit": [None, "AIC", "MDL"][N % 3], "exact": False, "dkind": "tone", "q": 1})
-    for i, sc in enumerate((1e-6, 1e-9, 1e6, 2.0 ** -40) if tier == "quick" else (1e-3, 1e-6, 1e-8, 1e-9, 1e-12, 1e6, 1e9, 2.0 ** -40)):
+                yield from _pair("burg", {"x": x, "order": order, "crit": [None, "AIC", "MDL"][N % 3], "exact": False, "dkind": "tone",
+                                          "q": 1}, N + int(cplx))
+    for i, sc in enumerate((1e-6, 1e-9, 1e6, 2.0 ** -40) if quick else (1e-3, 1e-6, 1e-8, 1e-9, 1e-12, 1e6, 1e9, 2.0 ** -40)):
         for cplx in (False, True):      # the estimator is homogeneous: every clause must hold at any amplitude
             x = sc * _mk(nrng, int(nrng.integers(6, 40)), cplx, ["noise", "tone"][i % 2], False)
             order = int(nrng.integers(1, 5))
             if _well_conditioned(x, order):
-                yield ("burg", {"x": x, "order": order, "crit": None, "exact": False, "dkind": "scaled", "q": 1})
-    for i in range(10 if tier == "quick" else 100):      # the largest admissible order, N - 2
+                yield from _pair("burg", {"x": x, "order": order, "crit": None, "exact": False, "dkind": "scaled", "q": 1}, 2 * i + int(cplx))
+    for i in range(10 if quick else 100):      # the largest order of the quantifier, N - 2
         cplx = bool(i % 2)
         N = int(nrng.integers(4, 14))
         x = _mk(nrng, N, cplx, "noise", False)
         if _well_conditioned(x, N - 2):
-            yield ("burg", {"x": x, "order": N - 2, "crit": None, "exact": False, "dkind": "noise", "q": 1})
-    n = 220 if tier == "quick" else 3000
+            yield from _pair("burg", {"x": x, "order": N - 2, "crit": None, "exact": False, "dkind": "noise", "q": 1}, i)
+    n = 220 if quick else 3000
     kinds = ["noise", "tone", "int", "zerointer", "trend"]
     skipped = 0
+    n_int = 0
     for i in range(n):
         cplx = bool(nrng.integers(0, 2))
         exact = (i % 3 == 0)
-        N = int(nrng.integers(4, 25 if exact else (81 if tier == "quick" else 201)))
+        N = int(nrng.integers(4, 25 if exact else (81 if quick else 201)))
         kind = kinds[i % len(kinds)]
         x = _mk(nrng, N, cplx, kind, exact)
         crit = None if i % 2 == 0 else CRITS[(i // 2) % len(CRITS)]
@@ -211,5 +478,56 @@ def gen(rng, nrng, tier):
         if not _well_conditioned(x, order):
             skipped += 1
             continue
-        yield ("burg", {"x": x, "order": order, "crit": crit, "exact": exact, "dkind": kind,
-                        "q": int(nrng.integers(1, order + 1))})
+        p = {"x": x, "order": order, "crit": crit, "exact": exact, "dkind": kind, "q": int(nrng.integers(1, order + 1))}
+        yield from _pair("burg", p, i, 1 if quick else 3)
+        if kind in ("int", "zerointer"):
+            # integer-valued samples: every fifth such record is also handed over as integer arrays and as lists
+            if n_int % 5 == 0:
+                yield ("burg_container", {"x": x, "order": order, "crit": crit, "dkind": kind, "cls": (n_int // 5) % 2})
+            n_int += 1
+    # the largest order of the statement, N - 1 (nesting checked against order N - 2)
+    for i in range(24 if quick else 120):
+        cplx = bool(i % 2)
+        N = 3 + (i // 2) % 12           # 3..14, real and complex each
+        dk = ["noise", "int", "tone"][(i // 24) % 3]
+        x = _mk(nrng, N, cplx, dk, False)
+        if _well_conditioned(x, N - 1):
+            yield from _pair("burg", {"x": x, "order": N - 1, "crit": None, "exact": False, "dkind": dk, "q": N - 2}, i, 2)
+        else:
+            skipped += 1
+    # rejected orders: 0 and N + 1 are ValueError in the code and in the model (order N is accepted by the code: not generated)
+    for i in range(8 if quick else 24):
+        cplx = bool(i % 2)
+        N = int(nrng.integers(3, 20))
+        x = _mk(nrng, N, cplx, "noise", i % 3 == 0)
+        yield ("burg_err", {"x": x, "order": [0, N + 1][(i // 2) % 2], "crit": [None, "AIC"][(i // 4) % 2], "exact": i % 3 == 0})
+    # clean tones: stage variances down to 1e-9 of the record's power
+    for i in range(60 if quick else 400):
+        cplx = bool(i % 2)
+        N = int(nrng.integers(10, 81 if quick else 201))
+        x, poles = _clean(nrng, N, cplx)
+        order = min(int(nrng.integers(poles, poles + 9)), N - 2)
+        if (i // 2) % 4 == 3:
+            crit = CRITS[(i // 8) % len(CRITS)]
+            if crit in ("AICc", "AKICc"):
+                order = min(order, N - 3)
+        else:
+            crit = None
+        if not _well_conditioned(x, order):
+            skipped += 1
+            continue
+        p = {"x": x, "order": order, "crit": crit, "exact": False, "dkind": "clean", "q": int(nrng.integers(1, order + 1))}
+        yield from _pair("burg_clean", p, i, 1 if quick else 2)
+    # AR(2) / AR(4) processes: the criterion stops at an interior order
+    for i in range(72 if quick else 480):
+        cplx = bool(i % 2)
+        which = ["ar2", "ar4"][(i // 2) % 2]
+        N = int(nrng.integers(16, 81 if quick else 201))
+        x = _ar(nrng, N, cplx, which)
+        crit = None if (i // 4) % 7 == 6 else CRITS[(i // 4) % 7]
+        order = int(nrng.integers(2, min(N - 3, 30) + 1))
+        if not _well_conditioned(x, order):
+            skipped += 1
+            continue
+        p = {"x": x, "order": order, "crit": crit, "exact": False, "dkind": which, "q": int(nrng.integers(1, order + 1))}
+        yield from _pair("burg", p, i, 1 if quick else 2)
